@@ -14,6 +14,10 @@ gen_mdp case (gen_mdp.arrays / impl/build.py:build_mdp work on it unchanged):
   gamma     "n/d"
   nO        observations 0..nO-1; each has positive probability for some (a, ns)
   obs       {"a,ns": [[o, "p"], ...]}    observation kernel of (action, NEXT state), grid k/8, "0" entries
+  obs_tiny  [[a, ns, o, k], ...]: kernel row (a, ns) gives observation o probability exactly 2^-k
+            (k = 30 or 40; taken from the row's largest entry).  o is, when possible, an observation that
+            action a emits nowhere else, so Pr(o | b, a) <= 2^-k for EVERY belief: possible but very rare
+            (below numpy's isclose atol) -- the posterior is then a ratio of tiny numbers
   obs_kinds per action: "informative" | "uninformative" (same row for every ns: all posteriors equal)
             | "twin" (two observations with identical columns: their posteriors coincide)
             | "deterministic" (observation is a function of ns)
@@ -101,11 +105,45 @@ def _symmetric(mat):
 
 
 def gen_pomdp(rng, nmax=5, amax=3, omax=4, gamma=None, min_states=2, zero_entries=True,
-              nonpos=False, goal=True, absorbing_selfloop=.7):
+              nonpos=False, goal=True, absorbing_selfloop=.7, tiny=.4):
+    """tiny = probability that the POMDP gets very rare (2^-30 / 2^-40) observation entries"""
     while True:
         case = _gen_once(rng, nmax, amax, omax, gamma, min_states, zero_entries, nonpos, goal, absorbing_selfloop)
         if case is not None:
+            case["obs_tiny"] = []
+            if rng.random() < tiny:
+                _add_tiny(rng, case, omax)
             return case
+
+
+def _add_tiny(rng, case, omax):
+    """at most one rare entry per informative action (so that two observation columns never differ
+    by tiny amounts only: distinct posteriors stay separated by far more than the comparison tolerance)"""
+    n, nA = case["n"], case["nA"]
+    acts = [a for a in range(nA) if case["obs_kinds"][a] == "informative"]
+    rng.shuffle(acts)
+    for a in acts[:rng.randint(1, 2)]:
+        ns = rng.randrange(n)
+        k = rng.choice([30, 40])
+        row = case["obs"]["%d,%d" % (a, ns)]
+        M = obs_arrays(case, range(nA), range(n), range(case["nO"]))
+        big = max(range(len(row)), key=lambda i: F(row[i][1]))
+        unused = [o for o in range(case["nO"]) if all(M[a][x][o] == 0 for x in range(n))]
+        zero_here = [o for o in range(case["nO"]) if M[a][ns][o] == 0]
+        if case["nO"] < omax and (not unused or rng.random() < .5):
+            o = case["nO"]
+            case["nO"] += 1
+        elif unused:
+            o = rng.choice(unused)
+        elif zero_here:
+            o = rng.choice(zero_here)
+        else:
+            continue
+        eps = F(1, 2 ** k)
+        row[big][1] = str(F(row[big][1]) - eps)
+        row[:] = [e for e in row if e[0] != o] + [[o, str(eps)]]
+        rng.shuffle(row)
+        case["obs_tiny"].append([a, ns, o, k])
 
 
 def _gen_once(rng, nmax, amax, omax, gamma, min_states, zero_entries, nonpos, goal, absorbing_selfloop):
@@ -228,10 +266,10 @@ def _composition(rng, total, parts):
     return [b - a for a, b in zip([0] + cuts, cuts + [total])]
 
 
-def gen_beliefs(rng, case, n_grid=3, n_reach=3):
+def gen_beliefs(rng, case, n_grid=2, n_reach=3):
     """beliefs over states 0..n-1 as {"kind", "b": ["n/d"]*n, "dyadic": bool, "sparse": bool}:
     all vertices, faces (two-state beliefs), grid points k/8 with zero components, an interior
-    grid point, the initial distribution, beliefs supported on absorbing states (and one leaking
+    grid point, beliefs with a tiny component 2^-30 (dyadic, so exact in floats), the initial distribution, beliefs supported on absorbing states (and one leaking
     off them), and exactly computed reachable beliefs (Bayes posteriors of the above)."""
     n = case["n"]
     P, R, absf, ini, Ob = exact_arrays(case)
@@ -263,6 +301,19 @@ def gen_beliefs(rng, case, n_grid=3, n_reach=3):
     if A and len(A) < n:
         s0 = rng.choice([s for s in range(n) if not absf[s]])
         add("absorbing-leak", [F(7, 8) if s == A[0] else F(1, 8) if s == s0 else F(0) for s in range(n)])
+    # tiny components: positive mass far below any isclose tolerance
+    eps = F(1, 2 ** 30)
+    i, j = rng.sample(range(n), 2)
+    add("tiny", [1 - eps if x == i else eps if x == j else F(0) for x in range(n)])
+    g = [F(k, 8) for k in _composition(rng, 8, n)]
+    i = max(range(n), key=lambda x: g[x])
+    j = rng.choice([x for x in range(n) if x != i])
+    g[i] -= eps
+    g[j] += eps
+    add("tiny", g)
+    if A and len(A) < n:
+        s0 = rng.choice([s for s in range(n) if not absf[s]])
+        add("absorbing-leak-tiny", [1 - eps if s == A[0] else eps if s == s0 else F(0) for s in range(n)])
     base = [[F(x) for x in e["b"]] for e in out]
     tries = 0
     reach = 0
@@ -288,6 +339,7 @@ def features(case):
     M = obs_arrays(case, range(case["nA"]), range(case["n"]), range(case["nO"]))
     f.update({
         "nO": case["nO"],
+        "obs_tiny": bool(case.get("obs_tiny")),
         "obs_zero_entries": any(M[a][ns][o] == 0 for a in range(case["nA"]) for ns in range(case["n"]) for o in range(case["nO"])),
         "obs_action_dependent": any(M[a] != M[0] for a in range(case["nA"])),
         "obs_uninformative_action": "uninformative" in case["obs_kinds"],
